@@ -128,6 +128,9 @@ func (c *Client) Open() error {
 
 	if len(c.metaServers) > 0 {
 		c.cacheData = c.retryUntilSnapshot(0)
+		if verifhook.Enabled {
+			verifhook.Emit("meta.client.install", c, uint64(0), c.cacheData)
+		}
 		c.updateNodeID()
 		c.opened = true
 	}
@@ -1158,6 +1161,9 @@ func (c *Client) retryUntilExec(typ internal.Command_Type, desc *proto.Extension
 
 		if err == nil {
 			c.waitForIndex(index)
+			if verifhook.Enabled {
+				verifhook.Emit("meta.client.ack", c, index, c.index())
+			}
 			return nil
 		}
 
@@ -1250,6 +1256,9 @@ func (c *Client) pollForUpdates() {
 		c.updateAuthCache()
 		c.updateNodeID()
 		c.updateMetaServers()
+		if verifhook.Enabled {
+			verifhook.Emit("meta.client.install", c, idx, c.cacheData)
+		}
 		if idx < data.Index {
 			close(c.changed)
 			c.changed = make(chan struct{})
